@@ -250,7 +250,7 @@ SCENARIOS = dict(
                     'two_split:resume/0/2+resume/1/2+slices',
                     'const:resume',
                     'funnel_net:resume/0/2+resume/1/2+nshell',
-                    'empty:resume/0/2+resume/1/2+nshell'],
+                    'empty:resume/0/2+resume/1/2+nshell', 'enlarge25:resume'],
              thorough=['gauss', 'gauss_t', 'gauss_d', 'gauss_net:resume+nshell', 'two', 'ring_net', 'half',
                        'plateau', 'wrap_net', 'g3_pool_s', 'b7_update', 'b1', 'blob_f32_inplace',
                        'nlb', 'funnel_net', 'empty', 'empty_d:resume+toggle/0/2+toggle/1/2+nshell',
@@ -269,13 +269,13 @@ SCENARIOS = dict(
                     'b7_update:resume/0/2+resume/1/2+slices/0/2+slices/1/2',
                     'const:resume/0/2+resume/1/2',
                     'long_b5:resume1/0/3+resume1/1/3+resume1/2/3', 'half:resume2', 'plateau:resume2',
-                    'gauss_stale:resume'],
+                    'gauss_stale:resume', 'enlarge25:resume'],
              thorough=['gauss', 'gauss_s', 'gauss_d', 'gauss_net', 'two', 'ring_net', 'half', 'wrap',
                        'wrap_net', 'g3_pool_s', 'blob_float', 'blob_int_vec', 'blob_two_obj',
                        'blob_array_pool', 'blob_struct_dictfn', 'blob_f32_inplace',
                        'dictfn_vec_net', 'b7_update', 'nlb', 'nlb_ring', 'b1', 'empty_d', 'two_split',
                        'ring_split_net', 'const', 'nuisance3_net', 'funnel_net', 'g5', 'net2_tanh',
-                       'long_b5:resume1']),
+                       'long_b5:resume1', 'enlarge25:resume']),
     C10=dict(quick=['gauss_s', 'b7_update', 'half', 'gauss_d', 'nlb', 'const:slices+resume',
                     'cross_split:resume', 'obj_vec:resume+slices', 'dictfn_vec_net:resume'],
              thorough=['gauss', 'gauss_s', 'gauss_d', 'b7_update', 'half', 'b1', 'two', 'wrap_net',
@@ -724,6 +724,9 @@ def run(prop, tier):
     determinism proof on the default path of each scenario (two fresh processes), then evidence."""
     timer = core.Timer()
     entries = SCENARIOS[prop][tier]
+    if os.environ.get('NVMC_ENTRIES'):
+        # debugging aid: explore only the named catalog entries (never set by a registered command)
+        entries = os.environ['NVMC_ENTRIES'].split(',')
     names = [e.split(':')[0] for e in entries]
     scns0 = scenarios.get(names)
     variants = VARIANTS[prop][tier]
